@@ -92,9 +92,13 @@ def _gen_edit(wl, cur, clean):
                 'thresholds': gen_thresholds(wl, new), 'burst_kwargs': gen_burst_kwargs(wl, new) or {}}
     if r < 0.78:
         return {'op': 'edit', 'target': 'center_extrema', 'value': wl.choice(('peak', 'trough'))}
-    if r < 0.86:
+    if r < 0.80:
         return {'op': 'edit', 'target': 'fek_replace',
                 'value': gen_find_extrema_kwargs(wl) or {'filter_kwargs': {'n_cycles': 3}}}
+    if r < 0.83:      # in-place edit of a top-level key
+        return {'op': 'edit', 'target': 'fek_set', 'key': 'boundary', 'value': wl.choice((0, 1, 3, 8))}
+    if r < 0.86:      # in-place edit inside the nested filter_kwargs dict
+        return {'op': 'edit', 'target': 'fek_nested_set', 'key': 'n_cycles', 'value': wl.choice((3, 4, 5))}
     if r < 0.92:
         return {'op': 'edit', 'target': 'return_samples', 'value': wl.random() < 0.5}
     if method == 'amp':
@@ -161,7 +165,15 @@ def gen_plan(wl, fr, idx):
             ops.append({'op': 'recompute', 'r': wl.choice((0.05, 0.1, 0.2))})
             ops.append({'op': 'recompute', 'r': wl.choice((None, 0.1, 0.3))})
             ops.append({'op': 'fit', 'sig': wl.randrange(nsig)})
-        elif scen < 0.57 and cur['burst_method'] == 'cycles':
+        elif scen < 0.53:
+            # fit -> in-place edit inside find_extrema_kwargs -> fit of the same signal
+            ops.append({'op': 'fit', 'sig': 0})
+            op = wl.choice(({'op': 'edit', 'target': 'fek_nested_set', 'key': 'n_cycles', 'value': wl.choice((4, 5))},
+                            {'op': 'edit', 'target': 'fek_set', 'key': 'boundary', 'value': wl.choice((3, 8))}))
+            ops.append(op)
+            _shadow_apply(cur, op)
+            ops.append({'op': 'fit', 'sig': 0})
+        elif scen < 0.63 and cur['burst_method'] == 'cycles':
             # fit -> recompute(r) -> threshold edit -> [fit] -> recompute(same r)
             rr = wl.choice((None, 0.05, 0.1, 0.2))
             ops.append({'op': 'fit', 'sig': 0})
@@ -271,6 +283,10 @@ class Model:
             s['find_extrema_kwargs'] = copy.deepcopy(op['value'])
         elif t == 'return_samples':
             s['return_samples'] = op['value']
+        elif t == 'fek_set':
+            s['find_extrema_kwargs'][op['key']] = op['value']
+        elif t == 'fek_nested_set':
+            s['find_extrema_kwargs'].setdefault('filter_kwargs', {})[op['key']] = op['value']
         elif t == 'burst_kwargs_set':
             s['burst_kwargs'][op['key']] = copy.deepcopy(op['value'])
         elif t == 'burst_kwargs_replace':
@@ -305,6 +321,10 @@ def apply_edit_to_object(obj, op):
         obj.find_extrema_kwargs = v
     elif t == 'return_samples':
         obj.return_samples = v
+    elif t == 'fek_set':
+        obj.find_extrema_kwargs[op['key']] = v
+    elif t == 'fek_nested_set':
+        obj.find_extrema_kwargs.setdefault('filter_kwargs', {})[op['key']] = v
     elif t == 'burst_kwargs_set':
         obj.burst_kwargs[op['key']] = v
     elif t == 'burst_kwargs_replace':
